@@ -16,6 +16,7 @@ struct Profile {
     double post_rate = 0.0;      // probability that an op carries posts
     int max_posts = 3;
     bool post_root = false, post_enqueue = true, post_defer = false;
+    bool post_cleardef = false;     // some submissions are clear_deferred_queue() calls (lockstep jobs on back / back11 only)
     bool post_in_start = false;
     bool post_enqueue_sub = true;  // enqueue_event aimed at a nested machine (unhandled ones are reported by backmp11 only)
     bool stop_when_drained = false; // stop() only with empty queues (what happens to pending events over stop/start is back-end specific)
